@@ -61,6 +61,7 @@ def run(ctx):
     hist, steps = (60, 45) if t == 'quick' else (2400, 60)
     r = vf.run_overlay_driver(ctx, 'pkg/http2', ['common/graph_test.go', 'http2/c20_test.go'], '^TestVFC20$',
                               env={'VF_TRACEDIR': tdir, 'VF_HISTORIES': str(hist), 'VF_STEPS': str(steps)}, timeout=900)
+    vf.absorb(ctx, r)     # a scheduler call that never returned (watchdog of the driver)
     runs = r['extra']['runs']
     accepted = 0
     samples = []
